@@ -480,3 +480,85 @@ pub fn skip_field_unsafe(input: &[u8]) -> Result<(usize, usize), String> {
         Err(e) => Err(panic_msg(e)),
     }
 }
+
+// ---------------------------------------------------------------- asynchronous drivers
+use crate::aio::{block_on, read_tree_async, Sched, ScriptedReader};
+use pilota::thrift::TAsyncInputProtocol;
+
+#[derive(Default, Debug)]
+pub struct AsyncOut {
+    pub values: Vec<Tree>,
+    pub err: Option<String>,
+    /// bytes taken from the stream
+    pub taken: usize,
+    /// stream position after each completed value
+    pub ends: Vec<usize>,
+    pub max_cap: usize,
+    pub polls: usize,
+    pub pendings: usize,
+    pub hung: bool,
+    pub poll_log: Vec<(usize, Option<usize>)>,
+}
+
+async fn run_async<P: TAsyncInputProtocol>(p: &mut P, types: &[u8], skip: bool) -> (Vec<Tree>, Option<String>) {
+    let mut vals = Vec::new();
+    for (i, t) in types.iter().enumerate() {
+        if skip {
+            if let Err(e) = p.skip(crate::interp::ttype(*t)).await {
+                return (vals, Some(format!("err: {e}")));
+            }
+            vals.push(Tree::Bool(true));
+        } else {
+            match read_tree_async(p, *t, i).await {
+                Ok(v) => vals.push(v),
+                Err(e) => return (vals, Some(format!("err: {e}"))),
+            }
+        }
+    }
+    (vals, None)
+}
+
+/// Decode (or skip) values of the given wire types from a scripted stream.
+/// `eof_at`: the stream ends after that many bytes (None = all of `input`).
+pub fn decode_async(proto: Proto, input: &[u8], types: &[u8], sched: Vec<Sched>, default_chunk: usize, eof_at: Option<usize>, skip: bool) -> AsyncOut {
+    let mut out = AsyncOut::default();
+    let mut rd = ScriptedReader::new(input.to_vec(), sched, default_chunk);
+    if let Some(e) = eof_at {
+        rd.eof_at = e.min(input.len());
+    }
+    let r = catch_unwind(AssertUnwindSafe(|| {
+        let res = match proto {
+            Proto::Bin => {
+                let mut p = binary::TAsyncBinaryProtocol::new(&mut rd);
+                block_on(Box::pin(run_async(&mut p, types, skip)), 10_000_000)
+            }
+            Proto::BinLe => {
+                let mut p = binary_le::TAsyncBinaryProtocol::new(&mut rd);
+                block_on(Box::pin(run_async(&mut p, types, skip)), 10_000_000)
+            }
+            Proto::Compact => {
+                let mut p = compact::TAsyncCompactProtocol::new(&mut rd);
+                block_on(Box::pin(run_async(&mut p, types, skip)), 10_000_000)
+            }
+            Proto::Unsafe => panic!("harness: the unchecked codec has no asynchronous reader"),
+        };
+        res
+    }));
+    match r {
+        Ok(Some((vals, err))) => {
+            out.values = vals;
+            out.err = err;
+        }
+        Ok(None) => {
+            out.hung = true;
+            out.err = Some("hang: future not ready after 10M polls".into());
+        }
+        Err(e) => out.err = Some(panic_msg(e)),
+    }
+    out.taken = rd.pos;
+    out.max_cap = rd.max_cap();
+    out.polls = rd.log.len();
+    out.pendings = rd.log.iter().filter(|l| l.got.is_none()).count();
+    out.poll_log = rd.log.iter().map(|l| (l.cap, l.got)).collect();
+    out
+}
